@@ -38,7 +38,8 @@ PROP = {
                    "ordering functors, clear-with-shrink, copies, moves, swaps, merges between equal and unequal managers, destruction) of Array, "
                    "SegmentedArray, HashSet/HashMap (chained and open-addressing buckets), HashMultiMap, TreeSet/TreeMap, MemPool, DataTable and stdish "
                    "wrappers is written as one line, replayed by the Lean monitor, and must get the same verdict line by line; at the end of each "
-                   "history both report zero outstanding blocks and zero live elements."),
+                   "history both report zero outstanding blocks and zero live elements. "
+                   "Hash multimap (Momo.MML, a ledger layer over the C08 model and over Momo.HTL for the key table): every operation of HashMultiMap.h emits its manager calls - ValueCrew::Data, the heap storage of every big value array with capacity * sizeof(Value) bytes in the order ArrayBucket::AddBackCrt / RemoveBack / Array::Shrink allocate and free it, pool buffers as observed traffic - and its key / value object events; for every history and fault schedule the monitor accepts the event list and holds exactly the books of both containers at every moment (C03_multimap_history_ledger), destruction leaves nothing (C03_multimap_history_balanced), Clear leaves the two crew blocks only (C03_multimap_clear). Tied to the code by c03_mmledger: outstanding blocks by class (key table blocks and crews by address and size, heap arrays by address with their byte sizes, pool buffers) and live objects after every operation."),
     "level_note": ("PARTIAL. C03_full quantifies over the C++ containers and is not a theorem: for the real code the verified monitor judges the "
                    "histories that the generators reach (see counters), it does not cover all histories. Proved for all histories / fault schedules "
                    "only for the traces of the models HTL (hash containers: complete manager and element events of every history; pool buffers of the chained bucket kinds are abstract - which buffers a pool holds is decided by MemPool (C09) and taken from the observed traffic, the model fixes only that Clear / destruction / a failed copy give all of them back; the relocation of a bucket's items into a larger pool block is not booked), Obj (RelocateCreate, CopyExec: element events), Pool (blockCount > 1 state machine: buffer "
